@@ -1231,6 +1231,24 @@ impl TypeLayout {
 
                     let list_type: Cow<'static, TypeLayout> = *list_type.clone();
 
+                    // `reverse` and `remove` move elements to other slots, `join` returns the list itself as `[T...]`. In a fixed-shape list whose
+                    // slots have different (merely compatible) types, like `[int?, int]`, a `nil` would
+                    // land in the slot typed `int`: only lists whose slots all have one type may shuffle.
+                    let slots_are_interchangeable = match self.disregard_distractors(true) {
+                        Self::List(ListType::Mixed(slots)) => {
+                            let classless = TypecheckFlags::<&ClassType>::classless();
+                            slots.iter().all(|slot| {
+                                slot.eq_complex(&list_type, &classless)
+                                    && list_type.eq_complex(slot, &classless)
+                            })
+                        }
+                        _ => true,
+                    };
+
+                    if !slots_are_interchangeable && matches!(property_name, "remove" | "reverse" | "join") {
+                        return None;
+                    }
+
                     match property_name {
                         "remove" => Some(new_assoc_function!(
                             vec![Cow::Owned(TypeLayout::int())],
